@@ -16,7 +16,8 @@ included) is identical for both implementations and equals the name-derived spec
 clients.len() < max_clients and nothing else inserts.  (4) Merge, exhaustive over the counter fields: ClientStats::merge adds each counter of `other` to the same-named
 field of self; receive_client_stats merges every element of every popped vector until the queue is empty.  (5) Wiring: routing arms record the matching request
 operation (C09.2); after each send exactly one of add_{classic,rfc}_response(ip, n) with n the Ok value of send_to (by version) or add_failed_send_attempt is
-recorded; send_client_stats clears the recorder only after the snapshot was pushed.
+recorded; send_client_stats clears the recorder only after the snapshot was pushed, and re-arms the one-shot status timer on every path.
+The reporter's table is written only through entry(addr)..merge (cleared right after report()) and every popped snapshot goes through the merge loop.
 """
 NOT_DECIDED = "arithmetic totals for a given history (follow from 1-5 by counting); force_push on a full queue evicts an unread snapshot (observation, not a claim)"
 TRUSTED = ["HashMap::entry().or_insert_with_key inserts at most one key", "crossbeam ArrayQueue"]
@@ -400,5 +401,10 @@ def run(ctx):
                 r2 = W.expand(W.ev(x[1]).ret())
                 if values.contains(r2, lambda s: is_call(s) and s[1].endswith("ServerStats::iter") and s[2] and s[2][0] == ("param", x[1], 1)):
                     okc = True
+    # the publishing timer is one-shot: every path through send_client_stats must arm it again, or this worker never publishes (nor clears) again
+    rearm = [bb for bb, t in sc.calls() if callee_name(t["fn"].get("path", "")) == "set_timeout"]
+    okarm = bool(rearm) and values.must_pass(sc, rearm, from_block=0)
+    ctx.check("send-wiring", "publishing-timer-rearmed-on-every-path", okarm, "send_client_stats re-arms the status timer on every path",
+              "send_client_stats can return without re-arming the one-shot status timer: after that this worker's statistics are never published again", ctx.loc(sc))
     ctx.check("send-wiring", "snapshot-pushed-before-clear", okc, "the recorder is cleared only after its snapshot was pushed to the queue",
               "send_client_stats clears the recorder without having pushed the snapshot", ctx.loc(sc))
